@@ -258,7 +258,9 @@ def run(R):
         prior = R.rng.choice(['uniform_prior', 'flat_prior'])
         gauss = R.rng.random() < 0.6
         pdc = R.rng.choice([0.5, R.rng.uniform(0.02, 0.98)])
-        alg = make(mc, mc.IterativeTransDMetropolisHastingsGaussianTape, prior, dc_prior=pdc, gaussian_jump_params=gauss)
+        # the widths of the balancing draw: the defaults (0.2, 0.2) on the first cases (the recorded finding quotes them), unequal otherwise
+        wkw = {} if i < 3 else {'dc_sigma_g': R.rng.choice([0.2, R.rng.uniform(0.05, 0.4)]), 'dc_sigma_d': R.rng.choice([0.2, R.rng.uniform(0.05, 0.6)])}
+        alg = make(mc, mc.IterativeTransDMetropolisHastingsGaussianTape, prior, dc_prior=pdc, gaussian_jump_params=gauss, **wkw)
         s_dc = rand_state(R.rng, True)
         x = dict(s_dc)
         x['gamma'], x['delta'] = R.rng.uniform(-PI / 6, PI / 6) * 0.98, R.rng.uniform(-PI / 2, PI / 2) * 0.98
@@ -305,12 +307,24 @@ def run(R):
             true_q = sp_norm.pdf(x['gamma'], 0, sg) * sp_norm.pdf(x['delta'], 0, sd) / Z
         else:
             true_q = 1.0 / ((PI / 3) * PI)
+        # shape and widths: up to its stored normalisation the density must be the truncated product Gaussian of the draw exactly
+        if gauss:
+            shape_q = sp_norm.pdf(x['gamma'], 0, sg) * sp_norm.pdf(x['delta'], 0, sd) / alg.alpha['proposal_normalisation']
+            if not close(qb, float(shape_q), 1e-9):
+                bad = bad or dict(case, check='balancing density is the product of the two Gaussians of the balancing draw (widths gamma_dc, delta_dc) '
+                                              'over the stored normalisation', widths=[sg, sd], expected_density=float(shape_q))
         if not close(qb, float(true_q), 1e-6):
             what = ('the dimension-balancing density is not the density of the draw it balances: Gaussian case normalised by a '
                     'cos(delta)-weighted integral (%.5f instead of %.5f at default widths), uniform case 3/(2 pi) instead of 3/pi^2; '
                     'detailed balance holds for a target whose DC:MT prior odds are scaled by that constant')
-            if not R.known_finding('jump_density_normalisation', what % (alg.alpha['proposal_normalisation'], 0.99115)):
+            if not R.known_finding('jump_density_normalisation', what % (0.97153 if i >= 3 else alg.alpha['proposal_normalisation'], 0.99115)):
                 bad = bad or dict(case, check='balancing density equals the density of the balancing draw', expected_density=float(true_q))
+    # the draw that the balancing density is the density of (same scripted-stream oracle as C06): truncated Gaussians of widths
+    # (gamma_dc, delta_dc) -- with the shape check above this ties the density in the acceptance to the draw actually made
+    from harness.props import c06 as _c06
+    bd = _c06.balancing_draw_oracle(R, mc, R.n(200, 4000))
+    if bd:
+        bad = bad or dict(bd, check='the dimension-balancing draw is not the draw its density describes: ' + bd['check'])
     # the kernel as a run composes it (states and acceptance calls produced by the sampler's own methods)
     for i in range(R.n(200, 5000)):
         case = as_run_case(mc, R.rng)
